@@ -4,6 +4,7 @@ pub mod world;
 pub mod rec;
 pub mod hist;
 pub mod fndrv;
+pub mod tadrv;
 pub mod slots {
     include!(concat!(env!("OUT_DIR"), "/slots.rs"));
     pub fn of(name: &str) -> &'static [&'static str] {
